@@ -490,7 +490,14 @@ func (s *Sim) oracleC09(op Op, evs []SIEvent) {
 	}
 	for t := range fromNodes {
 		if !fromApps[t] {
-			s.violate("C09", "app-node-view-differ", "node-only", "node %s lists a reservation of %s for %s which the application does not hold", t.node, t.app, t.ask)
+			detail := "node-only"
+			if p.Apps[t.app] == nil {
+				detail = "node-only-app-gone"
+				if d := p.Done[t.app]; d != nil {
+					detail = "node-only-app-" + d.State
+				}
+			}
+			s.violate("C09", "app-node-view-differ", detail, "node %s lists a reservation of %s for %s which the application does not hold", t.node, t.app, t.ask)
 		}
 	}
 	// queue view
@@ -502,7 +509,14 @@ func (s *Sim) oracleC09(op Op, evs []SIEvent) {
 		}
 		for _, id := range sortedKeys(q.Reserved) {
 			if q.Reserved[id] != perApp[id] {
-				s.violate("C09", "queue-view-differ", "", "queue %s counts %d reservations for %s, the application holds %d", path, q.Reserved[id], id, perApp[id])
+				detail := ""
+				if p.Apps[id] == nil {
+					detail = "app-gone"
+					if d := p.Done[id]; d != nil {
+						detail = "app-" + d.State
+					}
+				}
+				s.violate("C09", "queue-view-differ", detail, "queue %s counts %d reservations for %s, the application holds %d", path, q.Reserved[id], id, perApp[id])
 			}
 		}
 		for _, id := range q.Apps {
